@@ -23,11 +23,11 @@ def run(ctx):
     thorough = ctx.tier == "thorough"
     jobs = []
     for mode in ("native", "plain"):
-        m = 10 if thorough else 1
+        m = 10 if thorough else 2
         for part, nr in (("binary", 60 * m), ("unary", 40 * m), ("zero", 0), ("exp", 15 * m), ("lists", 3 * m), ("algebra", 15 * m)):
             if mode == "plain" and part in ("lists",):
                 nr = 0
-            for i in range(2 if part in ("binary", "algebra") else 1):
+            for i in range((6 if thorough else 3) if part in ("binary", "algebra", "exp", "unary") else 1):
                 jobs.append({"part": part, "mode": mode, "nrandom": nr, "shard": i})
 
     def one(j):
